@@ -52,6 +52,7 @@ THEOREMS = [
     "XalanModel.Props.C02.predicates_spec_partial",
     "XalanModel.Props.C02.predicates_literal_spec",
     "XalanModel.Props.C02.axes_spec_sample_partial",
+    "XalanModel.Props.C02.axes_spec_descendant_partial",
 ]
 
 CORPUS_EXPR = [
@@ -396,6 +397,9 @@ def compare_stream(ctx, r, harness, model, work):
 # evaluation: location paths over all axes, predicates, unions, functions, arithmetic
 
 EVAL_CORPUS = [
+    "//*[../*[position() > 0] and position() = 2]", "//*[position() = 2 and ../*[position() > 0]]",
+    "//*[count(../*[position() > 0]) = position()]", "(//*)[(../*)[position() = last()] and position() = 2]",
+    "//*[ancestor-or-self::*[position() >= 1] and position() = last()]",
     "('12' > 5) and ('abc' > 5)", "('5' > 1) and ('2' < '3')", "count(//*[position() > 1][position() = 1])",
     "number(concat('1', '2')) + number(string(3)) + number(concat('x', 'y'))",
     "/*/*[position()=last()][position()=1]", "*[position()=2][position()=1]", "//*[position()=last()][1]",
@@ -406,6 +410,13 @@ EVAL_CORPUS = [
     "//a[@p or @q][last()]", "string(//a[2])", "count(//@node()) - count(//@*)", "-1 div -(0)", "5 mod (1 div 0)", "-4 mod 2",
     "1 mod 0.1", "(1 div 0) mod 2", "5.5 mod 2", "-5.5 mod 2", "name(//*[@*][1]/@*[1])", "//comment() | //processing-instruction()",
 ]
+
+
+FIXED_DOC = ('<r id="0"><a p="1">1<c>x</c></a><b>2</b><a q="7">3</a>tail<e/><b><c/><c/><c/></b></r>',
+             [("r", "", "", -1), ("e", "r", "", 0), ("a", "id", "0", 1), ("e", "a", "", 1), ("a", "p", "1", 3), ("t", "", "1", 3),
+              ("e", "c", "", 3), ("t", "", "x", 6), ("e", "b", "", 1), ("t", "", "2", 8), ("e", "a", "", 1), ("a", "q", "7", 10),
+              ("t", "", "3", 10), ("t", "", "tail", 1), ("e", "e", "", 1), ("e", "b", "", 1), ("e", "c", "", 15), ("e", "c", "", 15),
+              ("e", "c", "", 15)])
 
 
 def classify_eval(text, iv, mv, sv):
@@ -444,15 +455,23 @@ def eval_session_lines(xml, table, exprs_ctx):
 
 def eval_stream(ctx, r, harness, model, work):
     nsess, nexpr, depth = (60, 60, 2) if not ctx.thorough else (1200, 100, 3)
+    npos = 30 if not ctx.thorough else 60
     lines = []
     meta = []
     for si in range(nsess):
         xml, table = g.gen_doc2(r)
         ec = []
-        if si < 3:
+        if si == 0:
+            xml, table = FIXED_DOC
+            for t in EVAL_CORPUS:
+                for c in (0, 1, 3, 9, 11):
+                    ec.append((t, c, None, xml, table))
+        elif si < 3:
             for t in EVAL_CORPUS:
                 ec.append((t, 0, None, xml, table))
                 ec.append((t, 1, None, xml, table))
+        for _ in range(npos):
+            ec.append((g.g_positional_expr(r), r.below(len(table)), None, xml, table))
         for _ in range(nexpr):
             term = g.g_top(r, r.range(1, depth))
             text = g.rnd(term)
